@@ -653,6 +653,22 @@ def r17_5_response(rep, facts):
                 rep.violation("R17.5", "write_response/header", "reply header is (%s, %s); expected (GetValuesResult, 0)" % (ir.show(a0), ir.show(a1)), "%s:%d" % (t["sp"]["f"], t["sp"]["l"]))
     # which flag gets which value: table of the match on the flag bits
     ev_rows = paths.rows(g, max_paths=20000)
+    # every subset -- the empty one included -- gets one record: each return path builds, sizes and stores the header
+    must_pass = ("protocol::RecordHeader::new", "protocol::RecordHeader::set_lengths", "protocol::RecordHeader::to_bytes")
+    n_ret = 0
+    short = None
+    for row in ev_rows:
+        if row.end != 'return':
+            continue
+        n_ret += 1
+        on_path = {c[0] for c in row.calls}
+        if not all(m_ in on_path for m_ in must_pass):
+            short = sorted(set(must_pass) - on_path)
+    if short is not None:
+        rep.violation("R17.5", "write_response/every-path-one-record", "a return path of write_response emits no complete record (it skips %s): every subset of the "
+                      "variables, the empty one included, is answered by one GetValuesResult" % [x.split("::")[-1] for x in short], b.loc())
+    elif n_ret:
+        rep.ok("R17.5", "write_response/every-path-one-record", "all %d return paths build the header, set its lengths and store it" % n_ret, b.loc())
     flag_vals = {}
     def _bit(v):
         c = const_by_suffix(facts, "::" + v, "protocol::vars::ProtocolVariables")
